@@ -150,6 +150,8 @@ def judge_case(case, outs):
     for o in outs:
         if o is None:
             continue
+        if 'mi_bits' in o and o['mi_bits'] not in allbits:
+            return 'plumbing-differs', {'score': o['score'], 'through_numba_mi': struct.unpack('<f', struct.pack('<I', o['mi_bits']))[0], 'ratio': case['r']}
         if 'alt_bits' in o and o['alt_bits'] not in allbits:
             return 'not-sample-only', {'score': o['score'], 'altered_score': struct.unpack('<f', struct.pack('<I', o['alt_bits']))[0]}
         if 'full_bits' in o:
